@@ -1439,9 +1439,9 @@ class Font(BaseObject):
         result = False
         # file is not in the UFO
         if modTime is None:
-            if obj._dataOnDisk:
+            # it was there when the data was loaded or saved
+            if obj._dataOnDisk is not None:
                 result = True
-            result = False
         # time stamp mismatch
         elif modTime != obj._dataOnDiskTimeStamp:
             data = reader.readBytesFromPath(fileName)
